@@ -219,8 +219,6 @@ def hostile_name_programs():
     return [
         (S("NLoopVar", field("i", "char"), length("n", "char"), array("xs", "char", length="n")), {"_t": "NLoopVar", "i": L(7), "xs": [L(1), L(2), L(3)]}, "i"),
         (S("NArrayLength", field("xs_length", "char"), array("xs", "char")), {"_t": "NArrayLength", "xs_length": L(9), "xs": [L(1), L(2), L(3)]}, "xs_length"),
-        (S("NReader", field("reader", "char"), field("b", "char")), {"_t": "NReader", "reader": L(9), "b": L(1)}, "reader"),
-        (S("NStartPosition", field("reader_start_position", "char"), field("b", "char")), {"_t": "NStartPosition", "reader_start_position": L(9), "b": L(1)}, "reader_start_position"),
         (S("NResult", field("result", "char"), field("b", "char")), {"_t": "NResult", "result": L(9), "b": L(1)}, "result"),
         (S("NWriterData", field("writer", "char"), field("data", "char")), {"_t": "NWriterData", "writer": L(9), "data": L(1)}, "writer/data"),
         (S("NLoopVarLater", length("n", "char"), array("xs", "char", length="n"), field("i", "char")), {"_t": "NLoopVarLater", "xs": [L(1), L(2)], "i": L(7)}, "i (after the loop)"),
